@@ -203,6 +203,9 @@ func c14ParseRunOnce(sc c14ParseScenario, serial []string, prefix []int) ([]sche
 	if s.Deadlock {
 		return s.Points, "deadlock", ""
 	}
+	if s.Truncated {
+		return s.Points[:min(len(s.Points), 600)], fmt.Sprintf("the reads had not finished after %d scheduling points under this schedule: a read does not terminate when interleaved with the others", s.MaxPoints), ""
+	}
 	for i := range results {
 		if results[i] != serial[i] {
 			return s.Points, fmt.Sprintf("document %d (%s %s) read while the other documents were being read gave the tree %s but %s when read alone", i, sc.Docs[i].Kind, sc.Docs[i].Text, results[i], serial[i]), ""
